@@ -12,20 +12,20 @@ import (
 )
 
 type oblResult struct {
-	Name     string            `json:"name"`
-	Kind     string            `json:"kind"`
-	Func     string            `json:"func"`
-	Src      string            `json:"src,omitempty"`
-	Pos      string            `json:"pos,omitempty"`
-	Result   string            `json:"result"`
-	Solver   string            `json:"solver"`
-	Ms       int64             `json:"ms"`
-	Size     int               `json:"script_bytes"`
+	Name      string            `json:"name"`
+	Kind      string            `json:"kind"`
+	Func      string            `json:"func"`
+	Src       string            `json:"src,omitempty"`
+	Pos       string            `json:"pos,omitempty"`
+	Result    string            `json:"result"`
+	Solver    string            `json:"solver"`
+	Ms        int64             `json:"ms"`
+	Size      int               `json:"script_bytes"`
 	PerSolver map[string]string `json:"per_solver,omitempty"`
-	model    map[string]string
-	output   string
-	q        *Query
-	x        *Exec
+	model     map[string]string
+	output    string
+	q         *Query
+	x         *Exec
 }
 
 func timeoutFor(tier string) int {
@@ -39,27 +39,78 @@ func runAll(f *flags, w *propWork, dir string) []*oblResult {
 	results := make([]*oblResult, len(w.obls))
 	var wg sync.WaitGroup
 	sem := make(chan struct{}, f.jobs)
-	// translation is not thread-safe per Exec (shared builder for on-demand declarations): translate
-	// sequentially, solve in parallel.
-	queries := make([]*Query, len(w.obls))
+	// translation of the obligations of one Exec is serialised (shared builder for on-demand
+	// declarations); different Execs translate in parallel, and all solving is parallel.
+	t0 := time.Now()
+	var statMu sync.Mutex
+	matched, light, fullN := 0, 0, 0
 	for i, ob := range w.obls {
-		queries[i] = w.oblExec[ob].translateObligation(ob)
-	}
-	for i, ob := range w.obls {
-		q := queries[i]
-		r := &oblResult{Name: ob.Name, Kind: ob.Kind, Func: ob.Func, Src: ob.Src, Pos: ob.Pos, q: q, x: w.oblExec[ob], Size: q.SizeB}
+		x := w.oblExec[ob]
+		r := &oblResult{Name: ob.Name, Kind: ob.Kind, Func: ob.Func, Src: ob.Src, Pos: ob.Pos, x: x}
 		results[i] = r
-		if q.Err != nil {
-			r.Result = "engine-error"
-			r.output = q.Err.Error()
-			continue
-		}
-		// the script must be re-rendered now that all declarations of the Exec are known
 		wg.Add(1)
-		go func(r *oblResult, q *Query) {
+		go func(r *oblResult, ob *Obligation, x *Exec) {
 			defer wg.Done()
 			sem <- struct{}{}
 			defer func() { <-sem }()
+			x.mu.Lock()
+			q := x.translateObligation(ob)
+			x.mu.Unlock()
+			r.q = q
+			statMu.Lock()
+			matched += q.Matched
+			if q.Light != "" {
+				light++
+			}
+			statMu.Unlock()
+			if q.Err != nil {
+				r.Result = "engine-error"
+				r.output = q.Err.Error()
+				return
+			}
+			if q.Light != "" {
+				lres, lsolver, lms, lout, lper := runSolvers(dir, r.Name+"_light", q.Light, 5, false, f.seed)
+				if lres == "unsat" {
+					r.Result, r.Solver, r.Ms, r.output, r.PerSolver = lres, lsolver, lms, lout, lper
+					r.Size = len(q.Light)
+					return
+				}
+			}
+			// staged premise selection: most relevant hypotheses first (sound: fewer hypotheses)
+			stages := []int{}
+			if q.lazyInst && !q.Ob.mustSat {
+				for _, k := range []int{6, 16} {
+					if k < q.NHyps {
+						stages = append(stages, k)
+					}
+				}
+			}
+			for _, k := range stages {
+				x.mu.Lock()
+				q.fullK(k)
+				x.mu.Unlock()
+				if q.Err != nil {
+					break
+				}
+				sres, ssolver, sms, sout, sper := runSolvers(dir, fmt.Sprintf("%s_k%d", r.Name, k), q.Script, 6, false, f.seed)
+				if sres == "unsat" {
+					r.Result, r.Solver, r.Ms, r.output, r.PerSolver = sres, fmt.Sprintf("%s/k%d", ssolver, k), sms, sout, sper
+					r.Size = len(q.Script)
+					return
+				}
+			}
+			x.mu.Lock()
+			q.full()
+			x.mu.Unlock()
+			statMu.Lock()
+			fullN++
+			statMu.Unlock()
+			if q.Err != nil {
+				r.Result = "engine-error"
+				r.output = q.Err.Error()
+				return
+			}
+			r.Size = q.SizeB
 			res, solver, ms, out, per := runSolvers(dir, r.Name, q.Script, timeoutFor(f.tier), f.tier == "thorough", f.seed)
 			if (res == "unknown" || res == "timeout") && f.tier == "quick" {
 				// one retry with another seed and a longer limit before giving up
@@ -71,7 +122,7 @@ func runAll(f *flags, w *propWork, dir string) []*oblResult {
 			r.Result, r.Solver, r.Ms, r.output, r.PerSolver = res, solver, ms, out, per
 			if res == "sat" {
 				r.model = parseValues(out)
-				// prefer a small counterexample: bound the lengths of the input slices and strings
+				// prefer a small counterexample: bound the lengths of the input slices
 				var lens []string
 				for _, v := range q.Values {
 					if strings.HasPrefix(v, "(sl_len ") {
@@ -102,9 +153,12 @@ func runAll(f *flags, w *propWork, dir string) []*oblResult {
 					r.Result = "vacuous"
 				}
 			}
-		}(r, q)
+		}(r, ob, x)
 	}
 	wg.Wait()
+	if f.verbose {
+		fmt.Printf("%d obligations in %.1fs: %d conjuncts matched syntactically, %d light scripts, %d full scripts built after a light attempt\n", len(w.obls), time.Since(t0).Seconds(), matched, light, fullN)
+	}
 	return results
 }
 
@@ -125,11 +179,30 @@ func cmdSmt(args []string) int {
 		}
 		if ob.Name == f.ob {
 			q := w.oblExec[ob].translateObligation(ob)
+			if q.full != nil {
+				q.lazyInst = false
+				q.full()
+			}
 			if q.Err != nil {
 				fmt.Fprintln(os.Stderr, q.Err)
 				return 2
 			}
-			fmt.Println(q.Script)
+			if f.verbose {
+				for _, h := range q.HypSrc {
+					fmt.Fprintln(os.Stderr, "HYP", truncate(h, 260))
+				}
+			}
+			switch f.tier {
+			case "light":
+				fmt.Println(q.Light)
+			case "q":
+				fmt.Println(q.QScript)
+				if q.QErr != "" {
+					fmt.Fprintln(os.Stderr, "qscript error:", q.QErr)
+				}
+			default:
+				fmt.Println(q.Script)
+			}
 		}
 	}
 	return 0
